@@ -17,12 +17,16 @@ ASSUME = ['at most k spurious failures of compare_exchange_weak during the solo 
 
 def run(ctx):
     ctx.trusted_base, ctx.assumptions = TB, ASSUME
-    if not ctx.harness(['ls_channel', 'sh_probe']):
+    if not ctx.harness(['ls_channel', 'p_nested', 'sh_probe']):
         return
     ctx.translate(COMPONENTS)
     ctx.prove('props/C08.v')
     L.lockstep(ctx, [L.mon_c08])
+    L.nested_sweep(ctx, ('panic', 'hang'))
     L.ra_search(ctx, 1500 if ctx.tier == 'quick' else 60000)
+    ctx.coverage['rule_nested'] = ('instruction-level sweep (trap flag): send/recv interrupted after every instruction by a handler running '
+                                   'send/recv to completion, fill 0-5; outcomes (returns, drained values, drop counts, panic, hang) against the '
+                                   'outcomes of the SC model over all step boundaries')
     ctx.coverage['rule'] = ('same scenarios/schedules as C06 (every split point incl. a complete send/recv inside the window between the two queue '
                             'operations of another, spurious CAS failures injected); monitors: panic caught at the scenario boundary, every '
                             'activity finishes, per call at most 5 shim steps that are not failed CASes, only load/cas/cell operations; '
